@@ -737,6 +737,7 @@ func oddCorpus(tier string) []tplSpec {
 	// other components and top-level oddities (outside every zone)
 	g.add("odd:network", `{"t":{"$date":"2024-05-01T10:00:00.123+00:00"},"s":"I","c":"NETWORK","id":22943,"ctx":"listener","msg":"Connection accepted","attr":{"remote":"<<IP:ip>>","uuid":{"uuid":{"$uuid":"<<S:s1>>"}},"connectionId":"<<N:n1>>","connectionCount":12345678901234567890,"ratio":1.50e-7,"ok":"<<B:b1>>","nothing":null,"list":[1,[2,[]],{}]}}`, "odd", "quick")
 	g.add("odd:other-with-command", `{"t":{"$date":"2024-05-01T10:00:00.123+00:00"},"s":"I","c":"ACCESS","id":1,"ctx":"conn1","msg":"note","attr":{"ns":"<<DB:db>>.<<COLL:coll>>","command":{"find":"<<COLL:coll>>","filter":{"<<G:g1>>":"<<S:s1>>"}},"n":"<<N:n1>>"}}`, "odd", "quick")
+	g.add("odd:other-with-command-duration", `{"t":{"$date":"2024-05-01T10:00:00.123+00:00"},"s":"I","c":"SHARDING","id":1,"ctx":"conn1","msg":"Completed operation","attr":{"ns":"<<DB:db>>.<<COLL:coll>>","command":{"find":"<<COLL:coll>>","filter":{"<<G:g1>>":"<<S:s1>>","<<G:g2>>":"<<N:n1>>"},"$db":"<<DB:db>>"},"originatingCommand":{"aggregate":"<<COLL:coll>>","pipeline":[{"$match":{"<<G:g1>>":"<<S:s2>>"}}]},"tagSets":[[]],"chunkBounds":[[],[1,2]],"durationMillis":1203}}`, "odd", "quick")
 	g.add("odd:attr-string", `{"t":{"$date":"2024-05-01T10:00:00.123+00:00"},"s":"I","c":"COMMAND","id":1,"ctx":"conn1","msg":"Slow query","attr":"<<S:s1>>"}`, "odd", "quick")
 	g.add("odd:attr-null", `{"t":{"$date":"2024-05-01T10:00:00.123+00:00"},"s":"I","c":"COMMAND","id":1,"ctx":"conn1","msg":"Slow query","attr":null,"x":[[{"a":null}]]}`, "odd", "quick")
 	g.add("odd:command-string", `{"t":{"$date":"2024-05-01T10:00:00.123+00:00"},"s":"I","c":"COMMAND","id":1,"ctx":"conn1","msg":"Slow query","attr":{"command":"<<S:s1>>","ns":"<<DB:db>>.<<COLL:coll>>","remote":"<<N:n1>>"}}`, "odd", "quick")
